@@ -234,6 +234,62 @@ Definition value_check (c : list node * ref * option (list tok)) : bool :=
   end.
 Definition value_mismatches (cs : list (list node * ref * option (list tok))) : list N := failing value_check cs.
 
+(* ---- the whole lexer over a text, and the text of a literal value (Model/LiteralText.v) ---- *)
+From PcoreV Require Import Model.LiteralText.
+
+(* the literal values whose text print_lit models exactly: no floats (fmt's digits are an oracle), no types (inside a
+   type an identifier key is written bare: Object[{attributes => ...}]) *)
+Fixpoint lit_shape (v : pval) : bool :=
+  match v with
+  | PVFloat _ | PVEntry _ _ | PVType _ _ => false
+  | PVArr es => forallb lit_shape es
+  | PVHash kvs => forallb (fun kv => lit_shape (fst kv) && lit_shape (snd kv)) kvs
+  | _ => true
+  end.
+
+(* a text: (the text, whether px.ToString2(v, Program) wrote it for a value v, the tokens types.VerifTokens made of it
+   without the end token or None when the lexer failed). The model's lexer gives the same tokens; and a text the value
+   printer wrote for a literal without floats and types is print_lit of the value the model's parser reads from it. *)
+Definition text_check (letters : list N) (c : str * bool * option (list tok)) : bool :=
+  let '(text, printed, obs) := c in
+  let il r := (ascii_letter r || existsb (N.eqb r) letters)%bool in
+  match lex_text il text, obs with
+  | LOk ts _, Some ts' =>
+    toks_beq ts ts' &&
+    (if printed then
+       match parse_tokens (fun _ => true) ts with
+       | POk v => if lit_shape v then str_eqb (print_lit v) text else true
+       | _ => true
+       end
+     else true)
+  | LErr _, None => true
+  | LOutOfFuel, None => true
+  | _, _ => false
+  end.
+Definition text_mismatches (letters : list N) (cs : list (str * bool * option (list tok))) : list N :=
+  failing (text_check letters) cs.
+
+(* ---- the expression a type prints as (Model/TypeExpr.v) ---- *)
+From PcoreV Require Import Model.TypeExpr.
+
+(* the same cases as type_check: the text of T (print_ty, compared with T.String() there), read by the model's lexer,
+   is the token list of expr_of_ty T, and the model's parser makes that expression of it. Compared where the text layer
+   round-trips (full) and the model's lexer accepts the text. *)
+Definition type_expr_check (floats : list (Z * str)) (c : ty * str * option ty * list ty * bool) : bool :=
+  let '(t, text, _, au, full) := c in
+  let accepts_undef x := existsb (fun y => ty_beq (canon x) (canon y)) au in
+  if full then
+    match lex_text ascii_letter text with
+    | LOk ts _ =>
+      let e := expr_of_ty (assoc_float floats) accepts_undef t in
+      toks_beq ts (tokens_of e) &&
+      match parse_tokens (fun _ => true) ts with POk e' => pval_beq e' e | _ => false end
+    | _ => true
+    end
+  else true.
+Definition type_expr_mismatches (floats : list (Z * str)) (cs : list (ty * str * option ty * list ty * bool)) : list N :=
+  failing (type_expr_check floats) cs.
+
 (* ---- the creators on parsed arguments, in every form the parser accepts ---- *)
 
 (* strings.ToLower on ASCII text (the cases of this tie are ASCII) *)
